@@ -260,10 +260,10 @@ func main() {
 						named = true
 					}
 				}
-				if !strings.Contains(msg, "revoked") || strings.Contains(msg, "unknown") || !named {
+				if !strings.Contains(strings.ToLower(msg), "revoked") || !named {
 					r.Violation(sigm("revoked-not-reported"), fmt.Sprintf("vector %v contains Revoked but the failure reads %q (must say revoked and name one of %v)", c.Vec, msg, revokedSubjects), wit)
 				}
-			} else if strings.Contains(msg, "is revoked") {
+			} else if strings.Contains(strings.ToLower(msg), "is revoked") {
 				r.Violation(sigm("claims-revoked"), fmt.Sprintf("vector %v has no Revoked entry but the failure reads %q", c.Vec, msg), wit)
 			}
 		}
